@@ -165,6 +165,9 @@ func (o *OvsdbServer) ListDatabases(client *rpc2.Client, args []interface{}, rep
 
 func (o *OvsdbServer) GetSchema(client *rpc2.Client, args []interface{}, reply *ovsdb.DatabaseSchema,
 ) error {
+	if len(args) < 1 {
+		return fmt.Errorf("not enough args")
+	}
 	db, ok := args[0].(string)
 	if !ok {
 		return fmt.Errorf("database %v is not a string", args[0])
@@ -231,6 +234,9 @@ func (o *OvsdbServer) Cancel(client *rpc2.Client, args []interface{}, reply *[]i
 
 // Monitor monitors a given database table and provides updates to the client via an RPC callback
 func (o *OvsdbServer) Monitor(client *rpc2.Client, args []json.RawMessage, reply *ovsdb.TableUpdates) error {
+	if len(args) < 3 {
+		return fmt.Errorf("not enough args")
+	}
 	var db string
 	if err := json.Unmarshal(args[0], &db); err != nil {
 		return fmt.Errorf("database %v is not a string", args[0])
@@ -274,6 +280,9 @@ func (o *OvsdbServer) Monitor(client *rpc2.Client, args []json.RawMessage, reply
 
 // MonitorCond monitors a given database table and provides updates to the client via an RPC callback
 func (o *OvsdbServer) MonitorCond(client *rpc2.Client, args []json.RawMessage, reply *ovsdb.TableUpdates2) error {
+	if len(args) < 3 {
+		return fmt.Errorf("not enough args")
+	}
 	var db string
 	if err := json.Unmarshal(args[0], &db); err != nil {
 		return fmt.Errorf("database %v is not a string", args[0])
@@ -317,6 +326,9 @@ func (o *OvsdbServer) MonitorCond(client *rpc2.Client, args []json.RawMessage, r
 
 // MonitorCondSince monitors a given database table and provides updates to the client via an RPC callback
 func (o *OvsdbServer) MonitorCondSince(client *rpc2.Client, args []json.RawMessage, reply *ovsdb.MonitorCondSinceReply) error {
+	if len(args) < 3 {
+		return fmt.Errorf("not enough args")
+	}
 	var db string
 	if err := json.Unmarshal(args[0], &db); err != nil {
 		return fmt.Errorf("database %v is not a string", args[0])
